@@ -42,7 +42,9 @@ TRUSTED = [
     "NumPy float64 arithmetic of the implementation is compared with exact rational arithmetic with the tolerance of DESIGN 2.2; the standard deviation is compared through its square",
 ]
 
-EST_SETS = [["mean"], ["mean", "stddev"], ["stddev", "mean"], ["mean", "stddev"], ["stddev"]]
+EST_SETS = [["mean"], ["mean", "stddev"], ["stddev", "mean"], ["mean", "stddev", "mean"], ["stddev"]]
+VIAS = ["calculate", "calculate", "calculate", "evaluator-step", "optimizer-step"]
+TOO_FEW, OPT_DONE, EVAL_DONE = 1, 5, 6
 
 
 # ---------------------------------------------------------------------------------------------------
@@ -58,7 +60,9 @@ def _weights(rng, n, full=False):
         if n > 1 and rng.random() < 0.4:
             w[rng.randrange(n)] = 0.0
         return w
-    if mode == "uniform" or n == 1:
+    if n == 1:
+        return [rng.choice([1.0, 1.0, 2.0, 0.5, 0.375])]       # a single weight is normalised to one as well
+    if mode == "uniform":
         return [1.0] * n
     if mode == "pow2":
         # dyadic weights whose sum is a power of two: normalisation stays exact
@@ -175,6 +179,12 @@ def gen_one(rng, stream="main"):
         "vectors": _vectors(rng, B),
         "table": _table(rng, B, R, no, nc, density, full),
     }
+    # entry path: EnsembleEvaluator.calculate, or an evaluator / optimizer step whose FINISHED_EVALUATION event
+    # carries the results; 'prelude': earlier evaluations of other vectors on the same EnsembleEvaluator object
+    case["via"] = rng.choice(VIAS)
+    case["prelude"] = []
+    if case["via"] == "calculate" and rng.random() < 0.3:
+        case["prelude"] = [[rng.randrange(B) for _ in range(rng.randint(1, 3))] for _ in range(rng.randint(1, 2))]
     if stream == "edge":
         # no successful realization carries weight in the first block: fail every positive-weight realization
         case["rmin"] = rng.choice([0, 0, 1])
@@ -182,6 +192,67 @@ def gen_one(rng, stream="main"):
         for r in range(R):
             if case["w"][r] > 0 or rng.random() < 0.3:
                 blk[r][0][rng.randrange(no)] = math.nan
+    return case
+
+
+def gen_interleaved(rng):
+    """several estimators and filters used in alternation (estimator map [0,1,0,1], filter maps that give neighbouring
+    functions different weight rows): the position of a function within its estimator / filter group differs from its
+    index; non-uniform weights, so that every row differs from every other"""
+    case = gen_one(rng, "main")
+    R = case["R"] = rng.choice([4, 5, 6, 8])
+    no = case["no"] = rng.choice([3, 4])
+    nc = case["nc"] = rng.choice([0, 2, 3, 4])
+    case["stream"] = "interleaved"
+    case["w"] = [rng.randint(1, 32) / 16 for _ in range(R)]
+    case["ow"] = _weights(rng, no)
+    case["lb"], case["ub"] = _bounds(rng, nc)
+    case["ests"] = rng.choice([["mean", "stddev"], ["stddev", "mean"], ["mean", "mean"], ["mean", "stddev", "mean"]])
+    ne = len(case["ests"])
+    start = rng.randrange(ne)
+    case["oem"] = [(start + j) % ne for j in range(no)]
+    case["cem"] = [(start + 1 + j) % ne for j in range(nc)] if nc else None
+    filters = []
+    for k in range(rng.choice([2, 2, 3])):
+        if k % 2 == 0:
+            first = rng.randrange(R - 2)        # windows of at least two realizations (a stddev function needs two)
+            filters.append({"method": "sort-objective",
+                            "options": {"sort": [rng.randrange(no)], "first": first, "last": rng.randint(first + 1, R - 2)}})
+        else:
+            filters.append({"method": "cvar-objective", "options": {"sort": [rng.randrange(no)], "percentile": rng.randint(4, 7) / 8}})
+    case["filters"] = filters
+    nf = len(filters)
+    pattern = [-1] + list(range(nf))
+    off = rng.randrange(len(pattern))
+    case["ofm"] = [pattern[(off + j) % len(pattern)] for j in range(no)]
+    case["cfm"] = [pattern[(off + 2 + j) % len(pattern)] for j in range(nc)] if nc else None
+    case["rmin"] = rng.choice([0, 1, 2])
+    case["table"] = _table(rng, case["B"], R, no, nc, rng.choice([0, 0.1, 0.2]))
+    return case
+
+
+def gen_late_failure(rng):
+    """batches in which only later vectors have failed realizations (the first vector is clean), and NaNs that sit in
+    constraint columns only"""
+    case = gen_one(rng, "main")
+    while case["R"] < 3 or len(case["filters"]) > 1:
+        case = gen_one(rng, "main")
+    case["stream"] = "late-failure"
+    B = case["B"] = rng.choice([2, 3, 4])
+    R, no, nc = case["R"], case["no"], case["nc"]
+    case["as_matrix"] = True
+    case["vectors"] = _vectors(rng, B)
+    case["prelude"] = [[rng.randrange(B)]] if case["via"] == "calculate" and rng.random() < 0.3 else []
+    table = _table(rng, B, R, no, nc, 0)
+    for b in range(rng.randint(1, B - 1), B):
+        for r in rng.sample(range(R), rng.randint(1, max(1, R - 1))):
+            if nc and rng.random() < 0.7:
+                table[b][r][1][rng.randrange(nc)] = math.nan          # a constraint column only
+            else:
+                table[b][r][0][rng.randrange(no)] = math.nan
+    case["table"] = table
+    if case["rmin"] is not None and rng.random() < 0.7:
+        case["rmin"] = rng.choice([0, 1])
     return case
 
 
@@ -214,19 +285,63 @@ def _grid_cases():
 
 
 def gen_cases(tier, rng):
-    n_main, n_edge, n_full = (1300, 150, 60) if tier == "quick" else (26000, 3000, 1200)
+    n_main, n_edge, n_full = (1150, 130, 50) if tier == "quick" else (24000, 3000, 1200)
     for _ in range(n_main):
         yield gen_one(rng, "main")
     for _ in range(n_edge):
         yield gen_one(rng, "edge")
     for _ in range(n_full):
         yield gen_one(rng, "full")
+    for _ in range(120 if tier == "quick" else 2500):
+        yield gen_interleaved(rng)
+    for _ in range(100 if tier == "quick" else 2000):
+        yield gen_late_failure(rng)
     if tier == "thorough":
         yield from _grid_cases()
 
 
 # ---------------------------------------------------------------------------------------------------
 # driver: the real code
+_PLUGINS = {}
+
+
+def _plugin_manager():
+    """Fresh PluginManager with a scripted optimizer that asks for the functions of the vectors named in its options
+    (one vector, or one batch) and returns."""
+    from ropt.plugins import PluginManager
+    if not _PLUGINS:
+        import numpy as np
+        from ropt.plugins.optimizer.base import Optimizer, OptimizerPlugin
+
+        class BatchOptimizer(Optimizer):
+            def __init__(self, config, callback):
+                self._cb = callback
+                self._x = np.array(config.optimizer.options["x"], dtype=np.float64)
+
+            def start(self, initial_values):
+                self._cb(self._x, return_functions=True, return_gradients=False)
+
+            @property
+            def allow_nan(self):
+                return False
+
+            @property
+            def is_parallel(self):
+                return True
+
+        class BatchOptimizerPlugin(OptimizerPlugin):
+            def create(self, config, callback):
+                return BatchOptimizer(config, callback)
+
+            def is_supported(self, method):
+                return method.lower() == "batch"
+
+        _PLUGINS["optimizer"] = BatchOptimizerPlugin
+    pm = PluginManager()
+    pm.add_plugin("optimizer", "verif01", _PLUGINS["optimizer"]())
+    return pm
+
+
 def build_config(case):
     cfg = {
         "variables": {"initial_values": [0.0] * len(case["vectors"][0])},
@@ -299,8 +414,9 @@ def run_impl(case):
     from ropt.plugins import PluginManager
 
     warnings.simplefilter("ignore")
-    pm = PluginManager()
-    config = EnOptConfig.model_validate(build_config(case))
+    pm = _plugin_manager()
+    cfg_dict = build_config(case)
+    config = EnOptConfig.model_validate(cfg_dict)
     no, nc = case["no"], case["nc"]
     vectors = [tuple(v) for v in case["vectors"]]
     table = case["table"]
@@ -328,14 +444,46 @@ def run_impl(case):
     obs = {"cfg": {"w": config.realizations.weights.tolist(), "ow": config.objectives.weights.tolist(),
                    "rmin": int(config.realizations.realization_min_success),
                    "pmin": int(config.gradient.perturbation_min_success)}}
-    ee = EnsembleEvaluator(config, None, evaluator, pm)
     x = np.array(case["vectors"], dtype=np.float64)
     if not case["as_matrix"]:
         x = x[0]
+    via = case.get("via", "calculate")
     try:
-        results = ee.calculate(x, compute_functions=True, compute_gradients=False)
-        obs["outcome"] = "results"
-        obs["results"] = [_result_obs(r, nc) for r in results]
+        if via == "calculate":
+            ee = EnsembleEvaluator(config, None, evaluator, pm)
+            for pre in case.get("prelude", []):
+                # earlier evaluations on the same object (other vectors, other batch shapes) must leave no trace
+                try:
+                    ee.calculate(np.array([case["vectors"][i] for i in pre], dtype=np.float64),
+                                 compute_functions=True, compute_gradients=False)
+                except OptimizationAborted:
+                    pass
+            del requests[:]
+            results = ee.calculate(x, compute_functions=True, compute_gradients=False)
+            obs["outcome"] = "results"
+            obs["results"] = [_result_obs(r, nc) for r in results]
+        else:
+            # through a plan step: the results are what an observer of FINISHED_EVALUATION receives
+            from ropt.enums import EventType
+            from ropt.plan import OptimizerContext, Plan
+            delivered = []
+            ctx = OptimizerContext(evaluator=evaluator, plugin_manager=pm)
+            ctx.add_observer(EventType.FINISHED_EVALUATION, lambda e: delivered.append([_result_obs(r, nc) for r in e.data["results"]]))
+            plan = Plan(ctx)
+            if via == "evaluator-step":
+                code = plan.run_step(plan.add_step("evaluator"), config=cfg_dict, variables=x)
+            else:
+                cfg_dict["optimizer"] = {"method": "verif01/batch", "options": {"x": x.tolist()}}
+                code = plan.run_step(plan.add_step("optimizer"), config=cfg_dict)
+            obs["exit"] = int(code.value)
+            obs["deliveries"] = len(delivered)
+            if delivered:
+                obs["outcome"] = "results"
+                obs["results"] = delivered[0]
+            else:
+                # an OptimizationAborted raised inside calculate() ends the step with its exit code, nothing is delivered
+                obs["outcome"] = "abort"
+                obs["code"] = obs["exit"]
     except OptimizationAborted as e:
         obs["outcome"] = "abort"
         obs["code"] = int(e.exit_code.value)
@@ -534,6 +682,19 @@ def oracle(case, obs):
     want = [[b, r] for b in range(case["B"]) for r in range(R)]
     if obs["requests"] != want:
         return {"clause": "batch-layout", "detail": obs["requests"][:12]}
+    via = case.get("via", "calculate")
+    if via != "calculate":
+        # the step delivers the results once and ends with TOO_FEW_REALIZATIONS iff some vector lacks its functions
+        # (optimizer step without allow_nan: also when every realization of a vector failed)
+        too_few = obs["outcome"] == "abort"
+        if obs["outcome"] == "results":
+            if obs["deliveries"] != 1:
+                return {"clause": "step-delivers-results-once", "detail": obs["deliveries"]}
+            too_few = any(r["functions"] is None for r in obs["results"]) or \
+                (via == "optimizer-step" and obs["cfg"]["rmin"] < 1 and any(all(r["failed"]) for r in obs["results"]))
+        done = EVAL_DONE if via == "evaluator-step" else OPT_DONE
+        if obs["exit"] != (TOO_FEW if too_few else done):
+            return {"clause": "step-exit-code", "detail": {"via": via, "exit": obs["exit"], "too_few": too_few}}
     return None
 
 
@@ -553,7 +714,9 @@ def features(case, obs):
     nf = _nfail(case)
     return {"stream": case["stream"], "R": case["R"], "functions": f"{case['no']}+{case['nc']}", "B": case["B"],
             "failed": "0" if nf == 0 else ("1-2" if nf <= 2 else "3+"), "filters_used": len(_used_filters(case)),
-            "outcome": obs["outcome"], "input": "2-D" if case["as_matrix"] else "1-D"}
+            "outcome": obs["outcome"], "input": "2-D" if case["as_matrix"] else "1-D",
+            "via": case.get("via", "calculate"), "prelude_calls": len(case.get("prelude", [])),
+            "estimators": "+".join(case["ests"]), "filters": len(case["filters"])}
 
 
 def known_signature(case, obs, violation):
